@@ -181,5 +181,43 @@ func (c *ctx) history(thorough bool) {
 		check("the same "+vn+" differ asked a second time", fresh[vn], vn, all(vn))
 	}
 	check("DefaultDiff asked once more at the end", openMy(myVariants["default"]), "default", all("default"))
+	// 3. history through the graphs: the differs complete / sort / rename parts of the graphs they are
+	// given (defaultCharset / defaultCollate append to the desired column's attributes, partsChange
+	// sorts the parts).  3a: the same differ asked twice about the very same pair of graphs;
+	// 3b: another server's differ asked about the same graphs first.
+	onGraphs := func(what string, first, second schema.Differ, vn string) {
+		round++
+		for i, h := range samples[vn] {
+			g1 := build("mysql", h.from)
+			g2 := g1
+			if !h.alias {
+				g2 = build("mysql", h.to)
+			}
+			c.differ = first
+			c.schemaDiff(g1, g2, 0)
+			c.differ = second
+			cs, err, pan := c.schemaDiff(g1, g2, 0)
+			obs := showSchemaChanges(cs, err)
+			if pan != "" {
+				obs = "panic: " + pan
+			}
+			id := fmt.Sprintf("hist-%s-r%d-%d", vn, round, i)
+			c.w.ImplOnly(id, what+": "+h.desc+" => "+obs)
+			c.w.Count("history:" + what)
+			if obs != "[]" {
+				c.w.NonTrivial(fmt.Sprintf("%s|%d|%s", vn, round, obs))
+			}
+			if obs != alone[vn][i] {
+				c.w.Violation(id, "history-dependent-graph", fmt.Sprintf("[mysql/%s] %s: %s: the differ answered %s on fresh graphs and %s now", vn, what, h.desc, alone[vn][i], obs))
+			}
+		}
+	}
+	for _, vn := range names {
+		d := openMy(myVariants[vn])
+		onGraphs("the same pair of graphs asked twice ("+vn+")", d, d, vn)
+	}
+	for _, pr := range [][2]string{{"my57", "my80"}, {"my80", "my57"}, {"default", "maria"}, {"maria", "default"}} {
+		onGraphs("graphs first shown to a "+pr[0]+" differ, then to the "+pr[1]+" differ", openMy(myVariants[pr[0]]), openMy(myVariants[pr[1]]), pr[1])
+	}
 	c.w.Set("fake_server_queries", myQueries)
 }
